@@ -117,9 +117,10 @@ CHECKS = {
         "technique": "one planted fault per generated layout, every fault class enumerated; by-construction expected line/column on 5 construction paths",
         "text": ("Subjects are drawn layouts (0-7 units of multi-line text, CRLF, continuations, comments, <%doc>, multi-line expressions "
                  "and blocks, defs, control structures; optional inline text so the construct's column is >1); into each subject every "
-                 "one of 55 fault classes is planted in turn and compiled as string, string+filename, file, through a lookup and with a "
-                 "module directory. Exception class, e.lineno (the physical line of the offending Python line or of the construct), "
-                 "e.pos, e.filename, e.source, agreement across paths, RichTraceback and the text/HTML error templates are checked."),
+                 "one of 57 fault classes is planted in turn and compiled as string, string+filename, file, through a lookup, with a "
+                 "module directory and into a module directory another root's lookup filled first. Exception class, e.lineno (the physical line of the offending Python line or of the construct), "
+                 "e.pos, e.filename, e.source, agreement across paths, RichTraceback and the text/HTML error templates (incl. the one line "
+                 "the HTML page marks as in error) are checked."),
         "note": ("Two pinned classes (unclosed tag, unterminated filter) and a multi-line tag's attribute line are checked for type/filename/"
                  "source only. Subjects are sampled (64 quick / 2.4k thorough), fault classes enumerated."),
     },
@@ -127,11 +128,11 @@ CHECKS = {
         "level": "fault_enumeration",
         "technique": "one planted raise / warning per generated layout and stack shape; by-construction expected template frames and warning locations",
         "text": ("For drawn prefix layouts, 7 stack shapes (single, include, nested include, inherit, namespace def, inherit->namespace->"
-                 "include) and 4 construction paths (put_string, files, module directory fresh and re-loaded), each of 9 raising "
-                 "constructs is planted in turn: the expected (template file-or-uri, line) of the innermost frame and of each outer "
+                 "include) and 4 construction paths (put_string, files, module directory fresh and re-loaded), each of 18 raising "
+                 "constructs (incl. % elif / % except / % else lines) is planted in turn: the expected (template file-or-uri, line) of the innermost frame and of each outer "
                  "template's calling construct must appear in order among RichTraceback's template frames, all template frames carry "
                  "their own file and source, python frames equal traceback.extract_tb, and the text / HTML error templates and "
-                 "format_exceptions name the innermost frame. Each of 5 warning constructs x 5 filter actions must be recorded "
+                 "format_exceptions name the innermost frame. Each of 8 warning constructs x 5 filter actions must be recorded "
                  "exactly once at (template, line), or raise a located SyntaxException under the error action."),
         "note": ("Helper-stub frames (def-call wrappers) have no line fixed by the statement: expected frames are matched as an ordered "
                  "subsequence. Subjects sampled (192 quick / 4.8k thorough)."),
@@ -148,8 +149,9 @@ CHECKS = {
                  "strict_undefined the template must render with exactly those names in the context, raise NameError naming the one that is "
                  "removed, and compute the values native exec computes. (3) Blocks with triple-quoted / escaped / continued string literals, "
                  "comments containing quotes, backslash continuations and raw tabs at margins of 0..12 spaces, tabs or both in <% %> and <%! %>: "
-                 "the values must be those CPython computes for the block as written. Every root cause found has a dedicated probe list that "
-                 "runs first on every run."),
+                 "the values must be those CPython computes for the block as written. (4) Eleven signatures written in tags (<%def>, nested "
+                 "defs, args= of <%call>; defaults, *args, keyword-only, positional-only, **kw) x calls bind like the Python function of that "
+                 "signature (same values or TypeError). Every root cause found has a dedicated probe list that runs first on every run."),
         "note": ("Trusted: CPython's ast / symtable / eval as reference, the grammar in vf/gen/pygram.py. Python 3.12-only quote reuse inside "
                  "f-strings is checked for re-emission but not placed in templates (delimiting ${} around it is the lexer's concern). Classes, "
                  "decorators, annotations, global / nonlocal, await / yield and match statements are not generated here (C04's statement forms "
@@ -269,7 +271,8 @@ CHECKS = {
         "text": ("Every code point (thorough: all 1 112 064; quick: all below U+3000 and every 37th above) and every string "
                  "of length <=3 over 14 markup-significant characters is pushed through h, x, u, entity, trim and the "
                  "htmlentityreplace handler for five charsets, plus hypothesis-drawn mixtures; each output is checked "
-                 "with a forbidden-character scan, the inverse function and a per-character expected encoding. The "
+                 "with a forbidden-character scan, the inverse function and a per-character expected encoding (eight stateful / EBCDIC / "
+                 "UTF-16/32 charsets: decode round trip); h and x are evaluated after the same text was escaped as markupsafe.Markup. The "
                  "single-character and short-string domains are swept completely, which is the right level for a "
                  "per-character guarantee; longer strings are sampled."),
         "note": ("Trusted: CPython html.entities, urllib.parse, codecs; markupsafe is part of the tested surface (h). "
